@@ -25,6 +25,9 @@ type c16Assign struct {
 	conf map[string]bool // setting -> entry in the configuration file
 	file bool            // a configuration file exists at the chosen location
 	src  string          // "--config" | "HR_CONFIG" | "default"
+	// defAt: setting -> "flag" | "env": that level restates the documented default value
+	// explicitly (e.g. --maxdepth 10); it must still win over the configuration file
+	defAt map[string]string
 }
 
 var c16Settings = []string{"database", "logfile", "date-format", "maxdepth", "today"}
@@ -33,6 +36,11 @@ var c16Layouts = map[string]string{"flag": "2006-01-02", "env": "02.01.2006", "c
 var c16Depth = map[string]int{"flag": 3, "env": 5, "conf": 7, "default": 10}
 
 func (a c16Assign) level(s string) string {
+	if a.defAt[s] != "" && !a.flag[s] && !(a.defAt[s] == "env" && false) {
+		if a.defAt[s] == "flag" || !a.flag[s] {
+			return "default"
+		}
+	}
 	switch {
 	case a.flag[s]:
 		return "flag"
@@ -56,6 +64,9 @@ func (a c16Assign) String() string {
 		}
 		if a.file && a.conf[s] {
 			p = append(p, "conf")
+		}
+		if a.defAt[s] != "" {
+			p = append(p, a.defAt[s]+"(restating the default)")
 		}
 		if len(p) > 0 {
 			parts = append(parts, s+"="+strings.Join(p, "+"))
@@ -166,6 +177,17 @@ func (e c16Env) exec(a c16Assign, dbOverride, logLayoutFor string, cmd ...string
 	}
 	if a.flag["today"] {
 		args = append(args, "--today", time.Date(2021, 3, 4, 0, 0, 0, 0, time.UTC).Format(layout))
+	}
+	for s, at := range a.defAt {
+		val := map[string]string{"database": "food.yaml", "logfile": "log.yaml", "date-format": c16Layouts["default"], "maxdepth": fmt.Sprint(c16Depth["default"])}[s]
+		if at == "flag" {
+			if (s == "database" && dbOverride != "") || (s == "logfile" && logLayoutFor != "") {
+				continue
+			}
+			args = append(args, "--"+s, val)
+		} else {
+			env[map[string]string{"database": "HR_DATABASE", "logfile": "HR_LOGFILE", "date-format": "HR_DATE_FORMAT", "maxdepth": "HR_MAXDEPTH"}[s]] = val
+		}
 	}
 	if dbOverride != "" {
 		args = append(args, "-d", dbOverride)
@@ -341,6 +363,17 @@ func runC16(c *core.Ctx) {
 						c.Count("exhaustive_product_cases", 1)
 					}
 				}
+			}
+		}
+	}
+	// (1b) a higher level that restates the documented default explicitly still wins over the configuration file
+	for _, src := range []string{"--config", "HR_CONFIG", "default"} {
+		for _, s := range []string{"database", "logfile", "date-format", "maxdepth"} {
+			for _, at := range []string{"flag", "env"} {
+				a := c16Assign{flag: map[string]bool{}, env: map[string]bool{}, conf: map[string]bool{s: true}, file: true, src: src, defAt: map[string]string{s: at}}
+				check(a, s)
+				c.Nontrivial(a.String(), s, "restated-default")
+				c.Count("restated_default_cases", 1)
 			}
 		}
 	}
